@@ -513,8 +513,10 @@ class TorControlProtocol(LineOnlyReceiver):
         values = [strargs[i] for i in range(1, len(strargs), 2)]
 
         def maybe_quote(s):
-            if ' ' in s:
-                return '"%s"' % s
+            # control-spec: a value is either a run of non-space
+            # characters or a QuotedString with C-style escapes
+            if ' ' in s or '\t' in s or '"' in s:
+                return '"%s"' % s.replace('\\', '\\\\').replace('"', '\\"')
             return s
         values = [maybe_quote(v) for v in values]
         args = ' '.join(map(lambda x, y: '%s=%s' % (x, y), keys, values))
